@@ -19,7 +19,10 @@ class CallMixin:
     def e_Call(self, e, st, k):
         txt = ast.unparse(e.func)
         if any(kw.arg is None for kw in e.keywords):
-            raise Unsupported("**kwargs call")
+            # `**opts` is forwarded only to declared-opaque callees (which ignore their arguments)
+            if txt not in self.con.opaque:
+                raise Unsupported("**kwargs call to a non-opaque callee")
+            e = ast.Call(func=e.func, args=e.args, keywords=[kw for kw in e.keywords if kw.arg is not None])
         # type(x) handled as a pseudo value
         if isinstance(e.func, ast.Name) and e.func.id == "type" and len(e.args) == 1 and "type" not in st.locals:
             return self.ev(e.args[0], st, lambda s1, v: k(s1, SV(smt.fresh("typeof"), None, ("typeof", v))))
